@@ -1,17 +1,19 @@
 (* Dedup.v — executable model of MontePy's duplicate-surface removal.
 
-   Modelled (montepy @ /repo):
-     montepy/mcnp_problem.py      MCNP_Problem.remove_duplicate_surfaces (the scan with its [to_delete]
-                                  set and overwritable [matching_map] dict, the cell loop, the call of
-                                  __update_internal_pointers, the final removal)
-     montepy/cell.py              Cell.remove_duplicate_surfaces (dict restricted to cell.surfaces),
-                                  Cell.update_pointers (only: cell.surfaces is reset to empty)
-     montepy/surfaces/half_space.py  HalfSpace/UnitHalfSpace.remove_duplicate_surfaces, the [divider] setter
-                                  (new divider appended to cell.surfaces)
-     montepy/surfaces/surface.py  Surface.find_duplicate_surfaces (returns []), Surface.update_pointers
-                                  (periodic surface and transform re-resolved from the *old* numbers)
-     montepy/surfaces/axis_plane.py, cylinder_on_axis.py, cylinder_par_axis.py  find_duplicate_surfaces
-     montepy/data_inputs/transform.py  Transform.equivalent (incl. the IndexError of other.rotation_matrix[i])
+   Part 1 (the code at /repo HEAD, after fix: d09ab94, f2650a0, 983bf94):
+     montepy/mcnp_problem.py      MCNP_Problem.remove_duplicate_surfaces: the scan with its [to_delete] set and
+                                  overwritable [matching_map] dict, the cell loop, the re-pointing of periodic
+                                  partners through the map, the final removal                          [scan, dedup]
+     montepy/cell.py              Cell.remove_duplicate_surfaces: dict restricted to cell.surfaces, geometry re-pointed,
+                                  each dead surface replaced by its survivor in cell.surfaces   [cell_dedup, surfs_after]
+     montepy/surfaces/half_space.py  HalfSpace/UnitHalfSpace.remove_duplicate_surfaces, the [divider] setter (a new
+                                  divider is appended to cell.surfaces)                                  [hs_dedup]
+     montepy/surfaces/surface.py  Surface.find_duplicate_surfaces (returns []), Surface._may_be_merged_with  [may_merge]
+     montepy/surfaces/axis_plane.py, cylinder_on_axis.py, cylinder_par_axis.py  find_duplicate_surfaces   [candidate]
+     montepy/data_inputs/transform.py  Transform.equivalent                                          [tr_equivalent]
+   Part 2 (suffix _old): the same functions as they were before those three commits (the second run of
+     __update_internal_pointers included).  Kept for the regression witnesses in Proofs/DedupProofs.v (what each repaired
+     defect was); nothing in Properties/C18.v is stated about it.
 
    Conventions.  Python object identity is modelled by the object's number: a geometry leaf holds the
    number of its divider, [to_delete] and the keys/values of [matching_map] are surface numbers
@@ -19,12 +21,12 @@
    -- unique numbers, property C06 -- coincide with equality of numbers; the harness checks uniqueness on
    every case).  Floats are exact rationals; [abs(a - b) < tol] is evaluated exactly (Python rounds the
    subtraction: the harness counts the cases in which the rounding decides a comparison).
-   NOT modelled: unresolved (integer) dividers, from-scratch surfaces whose constants are None,
-   Cells.update_pointers beyond the reset of cell.surfaces and the failing merge of data-block VOL/U/LAT/FILL cards
-   (material / complement links),
-   the state left behind when an exception escapes.
-   The second half (suffix _fx) is the same code with proposed_fixes/C18-1..3 applied: what the repairs are proved
-   to achieve; the current code is the first half.  No proofs in this file. *)
+   [s_perptr] is the number of the live [periodic_surface] (0 = None), [s_tr] the data of the Transform object that
+   [transform] points to; [s_oldper] / [s_oldtr] (the numbers remembered from the file) are only read by Part 2.
+   NOT modelled: unresolved (integer) dividers, from-scratch surfaces whose constants are None, leaves that do not
+   know their cell (added with &= / |=: the setter then appends nothing, the loop in Cell.remove_duplicate_surfaces
+   does; cell.surfaces is the same *set*, its order is not compared), the state left behind when an exception escapes.
+   No proofs in this file. *)
 From Coq Require Import List String Ascii ZArith QArith Qabs Bool.
 From MPV Require Import Model.Wire.
 Import ListNotations.
@@ -112,64 +114,11 @@ Fixpoint vec_loop (tol : Q) (xs ys : list Q) : res bool :=
       end
   end.
 
-(* Transform.equivalent(self = a, other = b, tolerance) *)
-Definition tr_equivalent (tol : Q) (a b : transform) : res bool :=
-  if negb (Bool.eqb (t_deg a) (t_deg b)) then Ok false
-  else if negb (Bool.eqb (t_m2a a) (t_m2a b)) then Ok false
-  else match vec_loop tol (t_disp a) (t_disp b) with
-       | Err e => Err e
-       | Ok false => Ok false
-       | Ok true =>
-           match t_rot a with
-           | [] => Ok true
-           | _ :: _ =>
-               match t_rot b with
-               | [] => Ok false
-               | _ :: _ => vec_loop tol (t_rot a) (t_rot b)
-               end
-           end
-       end.
-
-Definition periodic_old (s : surface) : bool := negb (Z.eqb (s_oldper s) 0).
 Definition cnst (s : surface) (i : nat) : Q := nth i (s_consts s) 0%Q.
-
-(* the transform part shared by the three classes *)
-Definition tr_check (tol : Q) (self other : surface) : res bool :=
-  match s_tr self with
-  | Some t => match s_tr other with
-              | Some t' => tr_equivalent tol t t'
-              | None => Ok false
-              end
-  | None => match s_tr other with
-            | None => Ok true
-            | Some _ => Ok false
-            end
-  end.
 
 (* surface != self and surface.surface_type == self.surface_type *)
 Definition same_kind (self other : surface) : bool :=
   negb (Z.eqb (s_num other) (s_num self)) && String.eqb (s_type other) (s_type self).
-
-(* is [other] appended to the result of self.find_duplicate_surfaces ?
-   All three classes start with [if not self.old_periodic_surface: ... else: return []]; that outer test is the
-   first one here.  AxisPlane and CylinderParAxis test self.old_periodic_surface a second time inside the loop
-   (never the other surface's); CylinderOnAxis tests surface.old_periodic_surface there. *)
-Definition candidate (tol : Q) (self other : surface) : res bool :=
-  if periodic_old self then Ok false
-  else if negb (same_kind self other) then Ok false
-  else match s_class self with
-       | CAxisPlane =>
-           if near tol (cnst self 0) (cnst other 0) then tr_check tol self other else Ok false
-       | CCylOnAxis =>
-           if periodic_old other then Ok false
-           else if near tol (cnst self 0) (cnst other 0) then tr_check tol self other else Ok false
-       | CCylParAxis =>
-           if near tol (cnst self 2) (cnst other 2)
-              && near tol (cnst self 0) (cnst other 0)
-              && near tol (cnst self 1) (cnst other 1)
-           then tr_check tol self other else Ok false
-       | COther => Ok false          (* Surface.find_duplicate_surfaces returns [] *)
-       end.
 
 Fixpoint filter_res {A} (f : A -> res bool) (l : list A) : res (list A) :=
   match l with
@@ -184,8 +133,58 @@ Fixpoint filter_res {A} (f : A -> res bool) (l : list A) : res (list A) :=
       end
   end.
 
-Definition find_dups (tol : Q) (self : surface) (all : list surface) : res (list surface) :=
-  filter_res (candidate tol self) all.
+(* ========================================================================= Part 1: the code at HEAD *)
+(* Transform.equivalent(self = a, other = b, tolerance): rotation matrices of different length are not equivalent;
+   the displacement loop indexes other.displacement_vector with self's indices (IndexError if shorter) *)
+Definition tr_equivalent (tol : Q) (a b : transform) : res bool :=
+  if negb (Bool.eqb (t_deg a) (t_deg b)) then Ok false
+  else if negb (Bool.eqb (t_m2a a) (t_m2a b)) then Ok false
+  else match vec_loop tol (t_disp a) (t_disp b) with
+       | Err e => Err e
+       | Ok false => Ok false
+       | Ok true =>
+           if negb (Nat.eqb (List.length (t_rot a)) (List.length (t_rot b))) then Ok false
+           else vec_loop tol (t_rot a) (t_rot b)
+       end.
+
+(* the transform part shared by the three classes: [if self.transform: if surface.transform: equivalent ...
+   else: if surface.transform is None] *)
+Definition tr_check (tol : Q) (self other : surface) : res bool :=
+  match s_tr self with
+  | Some t => match s_tr other with
+              | Some t' => tr_equivalent tol t t'
+              | None => Ok false
+              end
+  | None => match s_tr other with
+            | None => Ok true
+            | Some _ => Ok false
+            end
+  end.
+
+(* Surface._may_be_merged_with: neither periodic (the live pointer), same reflecting and white flags *)
+Definition periodic_now (s : surface) : bool := negb (Z.eqb (s_perptr s) 0).
+Definition may_merge (self other : surface) : bool :=
+  negb (periodic_now self) && negb (periodic_now other)
+  && Bool.eqb (s_refl self) (s_refl other) && Bool.eqb (s_white self) (s_white other).
+
+(* is [other] appended to the result of self.find_duplicate_surfaces ?  All three classes: [if
+   self.periodic_surface is None: for surface in surfaces: if surface != self and same type: if
+   self._may_be_merged_with(surface): <constants within tolerance>: <transform part>] *)
+Definition candidate (tol : Q) (self other : surface) : res bool :=
+  if periodic_now self then Ok false
+  else if negb (same_kind self other) then Ok false
+  else match s_class self with
+       | CAxisPlane | CCylOnAxis =>
+           if negb (may_merge self other) then Ok false
+           else if near tol (cnst self 0) (cnst other 0) then tr_check tol self other else Ok false
+       | CCylParAxis =>
+           if negb (may_merge self other) then Ok false
+           else if near tol (cnst self 2) (cnst other 2)
+                   && near tol (cnst self 0) (cnst other 0)
+                   && near tol (cnst self 1) (cnst other 1)
+           then tr_check tol self other else Ok false
+       | COther => Ok false
+       end.
 
 (* ------------------------------------------------------------------------- the scan *)
 Definition memZ (n : Z) (l : list Z) : bool := existsb (Z.eqb n) l.
@@ -213,21 +212,23 @@ Fixpoint record_matches (ms : list Z) (self : Z) (del : list Z) (m : list (Z * Z
   | x :: r => record_matches r self (set_add x del) (dict_set x self m)
   end.
 
-Fixpoint scan_loop (tol : Q) (all todo : list surface) (del : list Z) (m : list (Z * Z))
-  : res (list Z * list (Z * Z)) :=
+(* for surface in self.surfaces: if surface not in to_delete: for match in surface.find_duplicate_surfaces(...):
+   to_delete.add(match); matching_map[match] = surface      (over any test [cand]) *)
+Fixpoint scan_loop_g (cand : surface -> surface -> res bool) (all todo : list surface)
+                     (del : list Z) (m : list (Z * Z)) : res (list Z * list (Z * Z)) :=
   match todo with
   | [] => Ok (del, m)
   | s :: r =>
-      if memZ (s_num s) del then scan_loop tol all r del m
-      else match find_dups tol s all with
+      if memZ (s_num s) del then scan_loop_g cand all r del m
+      else match filter_res (cand s) all with
            | Err e => Err e
            | Ok ms => let '(del', m') := record_matches (map s_num ms) (s_num s) del m in
-                      scan_loop tol all r del' m'
+                      scan_loop_g cand all r del' m'
            end
   end.
 
 Definition scan (tol : Q) (all : list surface) : res (list Z * list (Z * Z)) :=
-  scan_loop tol all all [] [].
+  scan_loop_g (candidate tol) all all [] [].
 
 (* ------------------------------------------------------------------------- re-pointing the cells *)
 (* {dead: new for dead, new in d.items() if dead in keep} *)
@@ -264,9 +265,128 @@ Fixpoint remove_first (n : Z) (l : list Z) : list Z :=
   | x :: r => if Z.eqb x n then r else x :: remove_first n r
   end.
 
+(* for surface in self.surfaces: if surface.periodic_surface in matching_map: surface._periodic_surface = ... *)
+Definition repoint_periodic (m : list (Z * Z)) (s : surface) : surface :=
+  match (if Z.eqb (s_perptr s) 0 then None else lookup (s_perptr s) m) with
+  | Some n => mkSurf (s_num s) (s_class s) (s_type s) (s_consts s) (s_oldper s) n (s_refl s) (s_white s)
+                     (s_oldtr s) (s_tr s)
+  | None => s
+  end.
+
+(* Cell.remove_duplicate_surfaces: after the leaves are re-pointed (the divider setter appends a survivor that is
+   not yet in cell.surfaces), every dead surface of the restricted dict is removed from cell.surfaces and its
+   survivor appended when absent, in dict order *)
+Definition surfs_after (nd : list (Z * Z)) (g : geom) (cs : list Z) : list Z :=
+  let appended :=
+    fold_left (fun acc n => match lookup n nd with
+                            | Some s => if memZ s acc then acc else (acc ++ [s])%list
+                            | None => acc
+                            end) (leaf_surfs g) cs in
+  fold_left (fun acc kv => let acc' := remove_first (fst kv) acc in
+                           if memZ (snd kv) acc' then acc' else (acc' ++ [snd kv])%list) nd appended.
+
+Definition cell_dedup (m : list (Z * Z)) (c : cell) : cell :=
+  match restrict (c_surfs c) m with
+  | [] => c
+  | nd => mkCell (c_num c) (surfs_after nd (c_geom c) (c_surfs c)) (hs_dedup nd (c_geom c))
+  end.
+
+(* self._surfaces.remove(surface): the first member with that number *)
+Fixpoint remove_surf (n : Z) (l : list surface) : list surface :=
+  match l with
+  | [] => []
+  | x :: r => if Z.eqb (s_num x) n then r else x :: remove_surf n r
+  end.
+
+Definition remove_all (del : list Z) (l : list surface) : list surface :=
+  fold_left (fun acc n => remove_surf n acc) del l.
+
+(* ------------------------------------------------------------------------- the whole call *)
+Definition dedup (tol : Q) (P : problem) : res problem :=
+  match scan tol (p_surfs P) with
+  | Err e => Err e
+  | Ok (del, m) =>
+      Ok (mkProb (remove_all del (map (repoint_periodic m) (p_surfs P)))
+                 (map (cell_dedup m) (p_cells P)) (p_trs P))
+  end.
+
+(* ========================================================================= Part 2: before d09ab94 / f2650a0 / 983bf94 *)
+(* Transform.equivalent(self = a, other = b, tolerance) *)
+Definition tr_equivalent_old (tol : Q) (a b : transform) : res bool :=
+  if negb (Bool.eqb (t_deg a) (t_deg b)) then Ok false
+  else if negb (Bool.eqb (t_m2a a) (t_m2a b)) then Ok false
+  else match vec_loop tol (t_disp a) (t_disp b) with
+       | Err e => Err e
+       | Ok false => Ok false
+       | Ok true =>
+           match t_rot a with
+           | [] => Ok true
+           | _ :: _ =>
+               match t_rot b with
+               | [] => Ok false
+               | _ :: _ => vec_loop tol (t_rot a) (t_rot b)
+               end
+           end
+       end.
+
+Definition periodic_old (s : surface) : bool := negb (Z.eqb (s_oldper s) 0).
+
+(* the transform part shared by the three classes *)
+Definition tr_check_old (tol : Q) (self other : surface) : res bool :=
+  match s_tr self with
+  | Some t => match s_tr other with
+              | Some t' => tr_equivalent_old tol t t'
+              | None => Ok false
+              end
+  | None => match s_tr other with
+            | None => Ok true
+            | Some _ => Ok false
+            end
+  end.
+
+(* is [other] appended to the result of self.find_duplicate_surfaces ?
+   All three classes start with [if not self.old_periodic_surface: ... else: return []]; that outer test is the
+   first one here.  AxisPlane and CylinderParAxis test self.old_periodic_surface a second time inside the loop
+   (never the other surface's); CylinderOnAxis tests surface.old_periodic_surface there. *)
+Definition candidate_old (tol : Q) (self other : surface) : res bool :=
+  if periodic_old self then Ok false
+  else if negb (same_kind self other) then Ok false
+  else match s_class self with
+       | CAxisPlane =>
+           if near tol (cnst self 0) (cnst other 0) then tr_check_old tol self other else Ok false
+       | CCylOnAxis =>
+           if periodic_old other then Ok false
+           else if near tol (cnst self 0) (cnst other 0) then tr_check_old tol self other else Ok false
+       | CCylParAxis =>
+           if near tol (cnst self 2) (cnst other 2)
+              && near tol (cnst self 0) (cnst other 0)
+              && near tol (cnst self 1) (cnst other 1)
+           then tr_check_old tol self other else Ok false
+       | COther => Ok false          (* Surface.find_duplicate_surfaces returns [] *)
+       end.
+
+Definition find_dups_old (tol : Q) (self : surface) (all : list surface) : res (list surface) :=
+  filter_res (candidate_old tol self) all.
+
+Fixpoint scan_loop_old (tol : Q) (all todo : list surface) (del : list Z) (m : list (Z * Z))
+  : res (list Z * list (Z * Z)) :=
+  match todo with
+  | [] => Ok (del, m)
+  | s :: r =>
+      if memZ (s_num s) del then scan_loop_old tol all r del m
+      else match find_dups_old tol s all with
+           | Err e => Err e
+           | Ok ms => let '(del', m') := record_matches (map s_num ms) (s_num s) del m in
+                      scan_loop_old tol all r del' m'
+           end
+  end.
+
+Definition scan_old (tol : Q) (all : list surface) : res (list Z * list (Z * Z)) :=
+  scan_loop_old tol all all [] [].
+
 (* cell.surfaces while the geometry is re-pointed: the divider setter appends a survivor that is not
    yet there (in leaf order), then the dead surfaces are removed *)
-Definition surfs_after (nd : list (Z * Z)) (g : geom) (cs : list Z) : list Z :=
+Definition surfs_after_old (nd : list (Z * Z)) (g : geom) (cs : list Z) : list Z :=
   let appended :=
     fold_left (fun acc n => match lookup n nd with
                             | Some s => if memZ s acc then acc else (acc ++ [s])%list
@@ -274,10 +394,10 @@ Definition surfs_after (nd : list (Z * Z)) (g : geom) (cs : list Z) : list Z :=
                             end) (leaf_surfs g) cs in
   fold_left (fun acc kv => remove_first (fst kv) acc) nd appended.
 
-Definition cell_dedup (m : list (Z * Z)) (c : cell) : cell :=
+Definition cell_dedup_old (m : list (Z * Z)) (c : cell) : cell :=
   match restrict (c_surfs c) m with
   | [] => c
-  | nd => mkCell (c_num c) (surfs_after nd (c_geom c) (c_surfs c)) (hs_dedup nd (c_geom c))
+  | nd => mkCell (c_num c) (surfs_after_old nd (c_geom c) (c_surfs c)) (hs_dedup nd (c_geom c))
   end.
 
 (* Cell.update_pointers: self._surfaces = Surfaces(); only integer dividers are added again, and a
@@ -325,22 +445,11 @@ Fixpoint map_res {A B} (f : A -> res B) (l : list A) : res (list B) :=
       end
   end.
 
-(* self._surfaces.remove(surface): the first member with that number *)
-Fixpoint remove_surf (n : Z) (l : list surface) : list surface :=
-  match l with
-  | [] => []
-  | x :: r => if Z.eqb (s_num x) n then r else x :: remove_surf n r
-  end.
-
-Definition remove_all (del : list Z) (l : list surface) : list surface :=
-  fold_left (fun acc n => remove_surf n acc) del l.
-
-(* ------------------------------------------------------------------------- the whole call *)
-Definition dedup (tol : Q) (P : problem) : res problem :=
-  match scan tol (p_surfs P) with
+Definition dedup_old (tol : Q) (P : problem) : res problem :=
+  match scan_old tol (p_surfs P) with
   | Err e => Err e
   | Ok (del, m) =>
-      let cells1 := map (cell_dedup m) (p_cells P) in
+      let cells1 := map (cell_dedup_old m) (p_cells P) in
       let cells2 := map cell_update_pointers cells1 in
       match map_res (surface_update_pointers (p_surfs P) (p_trs P)) (p_surfs P) with
       | Err e => Err e
@@ -350,109 +459,11 @@ Definition dedup (tol : Q) (P : problem) : res problem :=
 
 (* the call on a problem whose data block holds a VOL, U, LAT or FILL card ([cellmod]): the second run of
    Cells.update_pointers merges the card into the one already attached, which raises MalformedInputError - after the
-   scan and after the cells were re-pointed, before any surface is removed *)
-Definition dedup_call (cellmod : bool) (tol : Q) (P : problem) : res problem :=
-  match scan tol (p_surfs P) with
+   scan_old and after the cells were re-pointed, before any surface is removed *)
+Definition dedup_call_old (cellmod : bool) (tol : Q) (P : problem) : res problem :=
+  match scan_old tol (p_surfs P) with
   | Err e => Err e
-  | Ok _ => if cellmod then Err MalformedInputError else dedup tol P
-  end.
-
-(* ------------------------------------------------------------------------- the code with proposed_fixes/C18-1..3 *)
-(* C18-2: Transform.equivalent: rotation matrices of different length are not equivalent *)
-Definition tr_equivalent_fx (tol : Q) (a b : transform) : res bool :=
-  if negb (Bool.eqb (t_deg a) (t_deg b)) then Ok false
-  else if negb (Bool.eqb (t_m2a a) (t_m2a b)) then Ok false
-  else match vec_loop tol (t_disp a) (t_disp b) with
-       | Err e => Err e
-       | Ok false => Ok false
-       | Ok true =>
-           if negb (Nat.eqb (List.length (t_rot a)) (List.length (t_rot b))) then Ok false
-           else vec_loop tol (t_rot a) (t_rot b)
-       end.
-
-Definition tr_check_fx (tol : Q) (self other : surface) : res bool :=
-  match s_tr self with
-  | Some t => match s_tr other with
-              | Some t' => tr_equivalent_fx tol t t'
-              | None => Ok false
-              end
-  | None => match s_tr other with
-            | None => Ok true
-            | Some _ => Ok false
-            end
-  end.
-
-(* C18-1: Surface._may_be_merged_with *)
-Definition periodic_now (s : surface) : bool := negb (Z.eqb (s_perptr s) 0).
-Definition may_merge (self other : surface) : bool :=
-  negb (periodic_now self) && negb (periodic_now other)
-  && Bool.eqb (s_refl self) (s_refl other) && Bool.eqb (s_white self) (s_white other).
-
-Definition candidate_fx (tol : Q) (self other : surface) : res bool :=
-  if periodic_now self then Ok false
-  else if negb (same_kind self other) then Ok false
-  else match s_class self with
-       | CAxisPlane | CCylOnAxis =>
-           if negb (may_merge self other) then Ok false
-           else if near tol (cnst self 0) (cnst other 0) then tr_check_fx tol self other else Ok false
-       | CCylParAxis =>
-           if negb (may_merge self other) then Ok false
-           else if near tol (cnst self 2) (cnst other 2)
-                   && near tol (cnst self 0) (cnst other 0)
-                   && near tol (cnst self 1) (cnst other 1)
-           then tr_check_fx tol self other else Ok false
-       | COther => Ok false
-       end.
-
-(* the scan, over any test *)
-Fixpoint scan_loop_g (cand : surface -> surface -> res bool) (all todo : list surface)
-                     (del : list Z) (m : list (Z * Z)) : res (list Z * list (Z * Z)) :=
-  match todo with
-  | [] => Ok (del, m)
-  | s :: r =>
-      if memZ (s_num s) del then scan_loop_g cand all r del m
-      else match filter_res (cand s) all with
-           | Err e => Err e
-           | Ok ms => let '(del', m') := record_matches (map s_num ms) (s_num s) del m in
-                      scan_loop_g cand all r del' m'
-           end
-  end.
-
-Definition scan_fx (tol : Q) (all : list surface) : res (list Z * list (Z * Z)) :=
-  scan_loop_g (candidate_fx tol) all all [] [].
-
-(* C18-3: no pointer re-resolution; periodic_surface of the survivors re-pointed through the map *)
-Definition repoint_periodic (m : list (Z * Z)) (s : surface) : surface :=
-  match (if Z.eqb (s_perptr s) 0 then None else lookup (s_perptr s) m) with
-  | Some n => mkSurf (s_num s) (s_class s) (s_type s) (s_consts s) (s_oldper s) n (s_refl s) (s_white s)
-                     (s_oldtr s) (s_tr s)
-  | None => s
-  end.
-
-(* Cell.remove_duplicate_surfaces with C18-3: after the leaves are re-pointed (the divider setter appends a survivor
-   when the leaf knows its cell; modelled as always), every dead surface of the restricted dict is removed from
-   cell.surfaces and its survivor appended when absent, in dict order *)
-Definition surfs_after_fx (nd : list (Z * Z)) (g : geom) (cs : list Z) : list Z :=
-  let appended :=
-    fold_left (fun acc n => match lookup n nd with
-                            | Some s => if memZ s acc then acc else (acc ++ [s])%list
-                            | None => acc
-                            end) (leaf_surfs g) cs in
-  fold_left (fun acc kv => let acc' := remove_first (fst kv) acc in
-                           if memZ (snd kv) acc' then acc' else (acc' ++ [snd kv])%list) nd appended.
-
-Definition cell_dedup_fx (m : list (Z * Z)) (c : cell) : cell :=
-  match restrict (c_surfs c) m with
-  | [] => c
-  | nd => mkCell (c_num c) (surfs_after_fx nd (c_geom c) (c_surfs c)) (hs_dedup nd (c_geom c))
-  end.
-
-Definition dedup_fx (tol : Q) (P : problem) : res problem :=
-  match scan_fx tol (p_surfs P) with
-  | Err e => Err e
-  | Ok (del, m) =>
-      Ok (mkProb (remove_all del (map (repoint_periodic m) (p_surfs P)))
-                 (map (cell_dedup_fx m) (p_cells P)) (p_trs P))
+  | Ok _ => if cellmod then Err MalformedInputError else dedup_old tol P
   end.
 
 (* ------------------------------------------------------------------------- wire *)
@@ -587,15 +598,15 @@ Definition show_err (e : err) : string :=
 
 Definition show_pair (kv : Z * Z) : string := show_Z (fst kv) ++ ">" ++ show_Z (snd kv).
 
-(* request : "<mode> <tol> <surfaces> <cells> <transforms>"   mode: c = the current code, f = the variant with
-   proposed_fixes/C18-1..3; a following m = the data block holds a VOL / U / LAT / FILL card
+(* request : "<mode> <tol> <surfaces> <cells> <transforms>"   mode: c = the code at HEAD; o = the code before the three
+   commits (om: with a VOL / U / LAT / FILL card in the data block)
    response: "ok <surviving numbers> <matching map> <to_delete> <cells> <surviving: num:periodic:transform>"
              or "err <exception class>" *)
-Definition run_with (fx cellmod : bool) (tol ss cs ts : string) : string :=
+Definition run_with (old cellmod : bool) (tol ss cs ts : string) : string :=
   match parse_Q tol, parse_semi parse_surface ss, parse_semi parse_cell cs, parse_semi parse_tr ts with
   | Some tol, Some ss, Some cs, Some ts =>
-      match (if fx then scan_fx tol ss else scan tol ss),
-            (if fx then dedup_fx tol (mkProb ss cs ts) else dedup_call cellmod tol (mkProb ss cs ts)) with
+      match (if old then scan_old tol ss else scan tol ss),
+            (if old then dedup_call_old cellmod tol (mkProb ss cs ts) else dedup tol (mkProb ss cs ts)) with
       | Ok (del, m), Ok P' =>
           "ok " ++ show_list show_Z (map s_num (p_surfs P')) ++ " " ++ show_list show_pair m
           ++ " " ++ show_list show_Z del
@@ -610,9 +621,8 @@ Definition run_Dedup (req : string) : string :=
   match words req with
   | [k; tol; ss; cs; ts] =>
       if String.eqb k "c" then run_with false false tol ss cs ts
-      else if String.eqb k "cm" then run_with false true tol ss cs ts
-      else if String.eqb k "f" then run_with true false tol ss cs ts
-      else if String.eqb k "fm" then run_with true true tol ss cs ts
+      else if String.eqb k "o" then run_with true false tol ss cs ts
+      else if String.eqb k "om" then run_with true true tol ss cs ts
       else "err " ++ show_err BadRequest
   | _ => "err " ++ show_err BadRequest
   end.
